@@ -116,7 +116,12 @@ Respond(q, s, r) ==
        LET drops == Drops(r.status, s.method)
            method2 == IF drops THEN "GET" ELSE s.method
            body2 == IF drops THEN "none" ELSE s.body
-           errs == (IF n >= q.maxRedirects THEN {"TooManyRedirects"} ELSE {})      \* request bound
+           \* request bound as the property states it: at most max_redirects requests, i.e. the
+           \* max_redirects-th redirect response is refused.  (docs/client_reference.rst reads
+           \* "maximum number of redirects to follow", one more than the code follows: a doc/code
+           \* discrepancy recorded in DESIGN.md section 5 #19, not a violation.)  Refusing earlier
+           \* than that contradicts both readings (clause EarlyTooManyRedirects).
+           errs == (IF n >= q.maxRedirects THEN {"TooManyRedirects"} ELSE {})
                    \cup (IF ~drops /\ s.body = "stream" THEN {"Payload"} ELSE {})  \* consumed one-shot body
                    \cup (IF r.form = "nonhttp" THEN {"NonHttp"} ELSE {})
                    \cup (IF r.form = "invalid" THEN {"InvalidUrl"} ELSE {})
